@@ -117,6 +117,41 @@ theorem classOf_lt {d : Dfa} {p : List Block} (hp : PInv d p) (s : Nat) (hs : s 
   have hk' : p[k]? = some B := by rw [List.getElem?_eq_getElem hk, hkB]
   rw [classOf_eq p hp.disj k B hk' s hsB]; exact hk
 
+/-- the minimised trie of plain clusters with everything later stages need: its language, a property of all its
+labels inherited from the clusters, a closed depth-first order, acyclicity -/
+theorem min_struct (cls : List Cluster) (hcls : ∀ cl ∈ cls, ∀ g ∈ cl, g.Simple) (P : Grapheme → Prop)
+    (hP : ∀ cl ∈ cls, ∀ g ∈ cl, P g) :
+    ∃ m, minimize (trie cls) pickMin = some m ∧ (∀ w, m.Accepts w ↔ (w ∈ cls ∧ w ≠ [])) ∧
+      (∀ e ∈ m.edges, P e.label) ∧ DfsOK m m.dfs ∧ 1 ≤ m.nodes ∧ (∀ c w, Path m c w c → w = []) := by
+  obtain ⟨ht, ha⟩ := trie_tree_alpha cls hcls
+  obtain ⟨p, hp, hst⟩ := minimizePartition_stable ht ha.covers ha.simple
+  have hq := quotientOk_of_stable ht hst
+  let m := recreate (trie cls) pickMin p
+  have hacc : ∀ w, m.Accepts w ↔ (w ∈ cls ∧ w ≠ []) := by
+    intro w
+    rw [recreate_accepts hq w, trie_exact cls hcls w]
+    have := init_never_final ht (trie_parents cls hcls) hst
+    constructor
+    · rintro ⟨h1, h2 | h2⟩
+      · exact ⟨h1, h2⟩
+      · exact absurd h2 this
+    · rintro ⟨h1, h2⟩; exact ⟨h1, Or.inl h2⟩
+  have hinit : m.init < m.nodes := by
+    show classOf p (trie cls).init < p.length
+    exact classOf_lt hst.pinv _ (by rw [ht.init0]; exact ht.pos)
+  have hdst : ∀ e ∈ m.edges, e.dst < m.nodes := by
+    intro q hqe
+    obtain ⟨b, hb, e, he, rfl⟩ := (mem_recreate_edges _ pickMin p q).mp hqe
+    have hee := ((mem_outEdges' _ _ e).mp he).1
+    show classOf p e.dst < p.length
+    exact classOf_lt hst.pinv _ (ht.lt e hee).2
+  refine ⟨m, by show minimize (trie cls) pickMin = some m; simp only [minimize, hp, Option.map_some, m], hacc, ?_,
+    dfsOK_of_bounded m hinit hdst, by omega, fun c w pth => recreate_acyclic ht hst c w pth⟩
+  intro q hqe
+  obtain ⟨b, hb, e, he, rfl⟩ := (mem_recreate_edges _ pickMin p q).mp hqe
+  have hee := ((mem_outEdges' _ _ e).mp he).1
+  exact trie_labels P cls hcls hP e hee
+
 /-- **S2–S7, no per-input contract** -/
 theorem pipeline_total (cfg : Config) (env : Env) (ws : List Str) (hrep : cfg.rep = false)
     (hseg : ∀ w ∈ ws, ∀ p ∈ env.segOf w, p ≠ []) :
